@@ -730,7 +730,7 @@ func c08Writers(c *core.Ctx) {
 				args = append(args, eval.Opaque{Why: "writer"})
 			}
 		}
-		if _, err := ev.CallFunc(fn, args...); err != nil {
+		if _, err := ev.CallFuncBound(fn, args...); err != nil {
 			c.Und("R4/writer/"+w.name, fn.Pos(), "cannot evaluate on a symbolic result: %v", err)
 			continue
 		}
